@@ -1,0 +1,8 @@
+//go:build verif
+
+package rtsp
+
+// VerifSetCmdWriteChanSize shrinks the write queue of server command sessions. Build tag `verif` only.
+func VerifSetCmdWriteChanSize(n int) {
+	serverCommandSessionWriteChanSize = n
+}
